@@ -733,8 +733,9 @@ def d7_vtk_reader(chk, repo, rule="C08.D7"):
     # name lookup
     src_names = set()
     for n in ast.walk(v.f.node):
-        if isinstance(n, ast.Compare) and isinstance(n.left, ast.Name):
-            for c in n.comparators:
+        sides = [n.left] + list(n.comparators) if isinstance(n, ast.Compare) else []
+        if any(isinstance(x, ast.Name) for x in sides):          # (the name may be written on either side)
+            for c in sides:
                 for x in ast.walk(c):
                     if isinstance(x, ast.Constant) and isinstance(x.value, str) and x.value in ("field", "valid", "norm"):
                         src_names.add(x.value)
